@@ -346,7 +346,7 @@ func isRelevantForPackager(packager string, content *Content) bool {
 }
 
 func addParents(contentMap map[string]*Content, path string, mtime time.Time) error {
-	for _, parent := range sortedParents(path) {
+	for _, parent := range sortedParents(NormalizeAbsoluteFilePath(path)) {
 		parent = NormalizeAbsoluteDirPath(parent)
 		// check for content collision and just overwrite previously created
 		// implicit directories
